@@ -4,7 +4,7 @@ From TT Require Import lib.RTac lib.PreludeR lib.Stats genR.Aggr.
 Import ListNotations.
 Local Open Scope R_scope.
 
-Ltac nR := cbv [nlit nraise neqb] in *.
+Ltac nR := cbv [nlit nraise neqb npow pow] in *.
 
 (* ---------- sorted_tuple ---------- *)
 Lemma ltb_asym x y : String.ltb x y = true -> String.ltb y x = false.
